@@ -64,40 +64,60 @@ Proof. exact unit_product_converts. Qed.
 Print Assumptions C20_unit_product_converts.
 
 (* compound unit strings (token lists of get_unit): the unit of the concatenation is the product *)
-Theorem C20_unit_compound_product : forall single ts1 ts2 u1 u2,
-  eval_tokens R Rmult Rdiv 1%R single ts1 = Some u1 -> eval_tokens R Rmult Rdiv 1%R single ts2 = Some u2 ->
-  eval_tokens R Rmult Rdiv 1%R single (ts1 ++ ts2) = Some (Rumul u1 u2).
+Theorem C20_unit_compound_product : forall single pinned ts1 ts2 u1 u2,
+  eval_tokens R Rmult Rdiv 1%R single pinned ts1 = Some u1 -> eval_tokens R Rmult Rdiv 1%R single pinned ts2 = Some u2 ->
+  eval_tokens R Rmult Rdiv 1%R single pinned (ts1 ++ ts2) = Some (Rumul u1 u2).
 Proof. exact unit_compound_product. Qed.
 Print Assumptions C20_unit_compound_product.
 
-(* exponents add -- as long as no exponent involved is 0 *)
-Theorem C20_unit_pow_add : forall (u : unit_ R) (a b : Z), uval u <> 0%R -> a <> 0%Z -> b <> 0%Z -> (a + b)%Z <> 0%Z ->
-  Rupow u (a + b) = Rumul (Rupow u a) (Rupow u b).
+(* Unit::operator^= exists in two variants selected by a boolean: [true] = pinned commit (exponent 0 keeps the
+   scale factor, DESIGN O2), [false] = repaired code (hooks/c20_fix_unit_pow_zero.patch). *)
+
+(* both variants: exponents add as long as no exponent involved is 0 *)
+Theorem C20_unit_pow_add : forall pinned (u : unit_ R) (a b : Z), uval u <> 0%R -> a <> 0%Z -> b <> 0%Z -> (a + b)%Z <> 0%Z ->
+  Rupow pinned u (a + b) = Rumul (Rupow pinned u a) (Rupow pinned u b).
 Proof. exact unit_pow_add. Qed.
 Print Assumptions C20_unit_pow_add.
 
-(* u^0 is dimensionless ... *)
-Theorem C20_unit_pow_zero_dimensionless : forall u : unit_ R, Forall (fun e => e = 0%Z) (uexp (Rupow u 0)).
+(* both variants: u^0 is dimensionless *)
+Theorem C20_unit_pow_zero_dimensionless : forall pinned (u : unit_ R), Forall (fun e => e = 0%Z) (uexp (Rupow pinned u 0)).
 Proof. exact unit_pow_zero_dimensionless. Qed.
 Print Assumptions C20_unit_pow_zero_dimensionless.
 
-(* ... but keeps its scale factor (DESIGN O2): "u^0 has factor 1" is REFUTED, witness cm = 1/100 m *)
-Theorem C20_unit_pow_zero_refuted : exists u : unit_ R, uval u <> 0%R /\ uval (Rupow u 0) <> 1%R.
+(* repaired variant: u^0 is the dimensionless unit with factor 1, and exponents add for ALL integers *)
+Theorem C20_unit_pow_zero_repaired : forall u : unit_ R,
+  uval (Rupow false u 0) = 1%R /\ Forall (fun e => e = 0%Z) (uexp (Rupow false u 0)).
+Proof. exact unit_pow_zero_repaired. Qed.
+Print Assumptions C20_unit_pow_zero_repaired.
+
+Theorem C20_unit_pow_add_repaired : forall (u : unit_ R) (a b : Z), uval u <> 0%R ->
+  Rupow false u (a + b) = Rumul (Rupow false u a) (Rupow false u b).
+Proof. exact unit_pow_add_repaired. Qed.
+Print Assumptions C20_unit_pow_add_repaired.
+
+(* pinned variant: "u^0 has factor 1" is REFUTED, witness cm = 1/100 m *)
+Theorem C20_unit_pow_zero_refuted : exists u : unit_ R, uval u <> 0%R /\ uval (Rupow true u 0) <> 1%R.
 Proof. exact unit_pow_zero_refuted. Qed.
 Print Assumptions C20_unit_pow_zero_refuted.
 
-(* hence "exponents add" is REFUTED through exponent 0: cm^1 * cm^-1 = 1 but cm^(1-1) has factor 1/100 *)
+(* pinned variant: "exponents add" is REFUTED through exponent 0: cm^1 * cm^-1 = 1 but cm^(1-1) has factor 1/100 *)
 Theorem C20_unit_pow_add_refuted : exists (u : unit_ R) (a b : Z), uval u <> 0%R /\
-  uval (Rupow u (a + b)) <> uval (Rumul (Rupow u a) (Rupow u b)).
+  uval (Rupow true u (a + b)) <> uval (Rumul (Rupow true u a) (Rupow true u b)).
 Proof. exact unit_pow_add_refuted. Qed.
 Print Assumptions C20_unit_pow_add_refuted.
 
 (* the same witness on the binary64 model that is compared with the real UnitConverter on every run *)
 Theorem C20_float_pow_zero_witness :
-  f_get_unit (S_ "cm^0") = Some (mkUnit 0x1.47ae147ae147bp-7%float [0; 0; 0; 0; 0; 0]%Z) /\
-  f_to_SI 12 1%float (S_ "m cm^0") = Some 0x1.47ae147ae147bp-7%float.
+  f_get_unit true (S_ "cm^0") = Some (mkUnit 0x1.47ae147ae147bp-7%float [0; 0; 0; 0; 0; 0]%Z) /\
+  f_to_SI true 12 1%float (S_ "m cm^0") = Some 0x1.47ae147ae147bp-7%float.
 Proof. exact float_pow_zero_witness. Qed.
 Print Assumptions C20_float_pow_zero_witness.
+
+Theorem C20_float_pow_zero_repaired :
+  f_get_unit false (S_ "cm^0") = Some (mkUnit 1%float [0; 0; 0; 0; 0; 0]%Z) /\
+  f_to_SI false 12 1%float (S_ "m cm^0") = Some 1%float.
+Proof. exact float_pow_zero_repaired. Qed.
+Print Assumptions C20_float_pow_zero_repaired.
 
 (* cross-quantity conversions of try_conversion invert each other *)
 Theorem C20_photon_energy_frequency_inverse : forall (h c : R) (ue uf : unit_ R) (x : R),
